@@ -10,7 +10,8 @@ import os, json, struct, collections
 import vf
 
 PROP = "C13"
-THEOREMS = ["dec_no_panic_refuted"]
+THEOREMS = ["dec_terminates", "dec_panic_only_capacity", "dec_no_panic", "dec_alloc_linear", "dec_depth_bounded",
+            "dec_no_panic_refuted", "dec_alloc_linear_refuted", "dec_depth_bounded_refuted", "repo_cfg_known"]
 PRE = ("From Coq Require Import List NArith ZArith.\nFrom Echo Require Import Base.Bytes Model.CborPA.\n"
        "Import ListNotations.\nOpen Scope N_scope.\n")
 
